@@ -265,6 +265,36 @@ var advTemplates = []advTemplate{
 	{"live:format-utf8-select", func(g *core.Tape) string {
 		return liveLoop(`local _ = string.format("%5d%s%q", 1, "a", "b") .. utf8.char(65, 0x10FFFF) .. select("#", 1, 2, 3)`)
 	}},
+	{"live:load-compile-error", func(g *core.Tape) string {
+		// a chunk that parses but is refused by the compiler (as opposed to a syntax error)
+		bad := []string{`"goto nowhere --"`, `"break --"`, `"local x <const> = 1 x = 2 --"`, `"::l:: ::l:: --"`}[g.Choose(4)]
+		return `local bad = ` + bad + ` .. ("x"):rep(` + []string{"100", "1e4", "1e5"}[g.Choose(3)] + `) ` + liveLoop(`load(bad)`)
+	}},
+	{"live:tostring-with-long-name", func(g *core.Tape) string {
+		k := []string{"1000", "1e5"}[g.Choose(2)]
+		return `local t = setmetatable({}, {__name = ("n"):rep(` + k + `)}) local keep, n = {}, 0 while true do n = n + 1 keep[n] = tostring(t) if n % 10 == 0 then emit("len", n * ` + k + `) end end`
+	}},
+	{"live:os-date-literal-text", func(g *core.Tape) string {
+		k := []string{"1000", "1e5"}[g.Choose(2)]
+		return `local fmt = ("x"):rep(` + k + `) local keep, n = {}, 0 while true do n = n + 1 keep[n] = os.date(fmt) if n % 10 == 0 then emit("len", n * ` + k + `) end end`
+	}},
+	{"file-buffer-size", func(g *core.Tape) string {
+		f := []string{`io.stdout`, `io.tmpfile()`, `io.stderr`}[g.Choose(3)]
+		mode := []string{"full", "line"}[g.Choose(2)]
+		return `local f = ` + f + ` f:setvbuf("` + mode + `", math.tointeger(` + bigN(g) + `)) f:setvbuf("no")`
+	}},
+	{"file-read-all", func(g *core.Tape) string {
+		return `local f = io.tmpfile() local blk = ("x"):rep(1e5) for i = 1, 120 do f:write(blk) end f:seek("set", 0) return #f:read("a")`
+	}},
+	{"file-read-count", func(g *core.Tape) string {
+		return `local f = io.open("/dev/zero") return #f:read(math.tointeger(` + bigN(g) + `))`
+	}},
+	{"file-lines-count", func(g *core.Tape) string {
+		return `for l in io.lines("/dev/zero", math.tointeger(` + bigN(g) + `)) do emit("len", #l) break end`
+	}},
+	{"file-read-sparse", func(g *core.Tape) string {
+		return `local f = io.tmpfile() f:seek("set", math.tointeger(` + bigN(g) + `)) f:write("x") f:seek("set", 0) return #f:read("a")`
+	}},
 	{"live:varargs-held-by-frames", func(g *core.Tape) string {
 		// every frame of the recursion holds its own copy of the argument list (16 bytes a value)
 		k := []string{"100", "1000", "10000"}[g.Choose(3)]
